@@ -9,14 +9,14 @@ variable {h : Hashing} {j : SyncIn}
 
 /-- where a delete of the OrderedReady reconcile comes from -/
 theorem mono_delete_src (hk : MonoK h j) {o : Int} {id : Nat} {w : Why}
-    (hm : Action.delete o id w ∈ monoActsOf j.view hk.1.norm.curRev.name hk.1.norm.updRev.name (bOf j) (EOf j) j.pods) :
+    (hm : Action.delete o id w ∈ monoActsOf j.view hk.1.1.norm.curRev.name hk.1.1.norm.updRev.name (bOf j) (EOf j) j.pods) :
     ∃ c ∈ j.pods, c.pod.id = id ∧
       ((c.pod.fs = true ∧ inRange (bOf j) (EOf j) c.pod.ord = true ∧
-          ∃ rev, Action.create c.pod.ord rev ∈ monoActsOf j.view hk.1.norm.curRev.name hk.1.norm.updRev.name (bOf j) (EOf j) j.pods) ∨
+          ∃ rev, Action.create c.pod.ord rev ∈ monoActsOf j.view hk.1.1.norm.curRev.name hk.1.1.norm.updRev.name (bOf j) (EOf j) j.pods) ∨
        inRange (bOf j) (EOf j) c.pod.ord = false ∨
        (c.pod.fs = false ∧ inRange (bOf j) (EOf j) c.pod.ord = true ∧ j.view.strat = .rolling ∧ partOf j.view ≤ c.pod.ord ∧
-          c.pod.rev ≠ hk.1.norm.updRev.name)) := by
-  have hs := hk.1
+          c.pod.rev ≠ hk.1.1.norm.updRev.name)) := by
+  have hs := hk.1.1
   have hn := hs.norm
   have hctx := hs.ctx
   unfold monoActsOf at hm ⊢
@@ -50,7 +50,7 @@ theorem mono_delete_src (hk : MonoK h j) {o : Int} {id : Nat} {w : Why}
           obtain ⟨t, q⟩ := tq
           rw [ht] at hm
           simp only [walkActs, List.mem_singleton, Action.delete.injEq] at hm
-          obtain ⟨c, hcm, hcp, hco, hr, hfs, hrev, hpt, hnod⟩ := target_is_pod hctx hn.part ht
+          obtain ⟨c, hcm, hcp, hco, hr, hfs, hrev, hpt, hnod⟩ := target_is_pod hctx hk.2 ht
           refine ⟨c, hcm, by rw [hcp]; exact hm.2.1.symm, Or.inr (Or.inr ⟨hfs, by rw [hco]; exact hr,
             hn.spec.strat.resolve_right hnod, by rw [hco]; exact hpt, by rw [hcp]; exact hrev⟩)⟩
       · simp only [hce, if_false] at hm
@@ -69,9 +69,9 @@ theorem mono_delete_src (hk : MonoK h j) {o : Int} {id : Nat} {w : Why}
     · simp only [hfl, Bool.false_eq_true, if_false, List.not_mem_nil] at hm
 
 theorem mono_create_src (hk : MonoK h j) {o : Int} {rev : String}
-    (hm : Action.create o rev ∈ monoActsOf j.view hk.1.norm.curRev.name hk.1.norm.updRev.name (bOf j) (EOf j) j.pods) :
-    Action.create o rev ∈ (monoRep j.view hk.1.norm.curRev.name hk.1.norm.updRev.name
-      (repsOf j.view hk.1.norm.curRev.name hk.1.norm.updRev.name (bOf j) (EOf j) (j.pods.map (·.pod)))).1 := by
+    (hm : Action.create o rev ∈ monoActsOf j.view hk.1.1.norm.curRev.name hk.1.1.norm.updRev.name (bOf j) (EOf j) j.pods) :
+    Action.create o rev ∈ (monoRep j.view hk.1.1.norm.curRev.name hk.1.1.norm.updRev.name
+      (repsOf j.view hk.1.1.norm.curRev.name hk.1.1.norm.updRev.name (bOf j) (EOf j) (j.pods.map (·.pod)))).1 := by
   unfold monoActsOf at hm
   simp only at hm
   rw [List.mem_append] at hm
@@ -79,8 +79,8 @@ theorem mono_create_src (hk : MonoK h j) {o : Int} {rev : String}
   · exact hm
   · exfalso
     split_ifs at hm with h1 h2
-    · cases ht : walkTarget j.view hk.1.norm.updRev.name
-          (repsOf j.view hk.1.norm.curRev.name hk.1.norm.updRev.name (bOf j) (EOf j) (j.pods.map (·.pod))) with
+    · cases ht : walkTarget j.view hk.1.1.norm.updRev.name
+          (repsOf j.view hk.1.1.norm.curRev.name hk.1.1.norm.updRev.name (bOf j) (EOf j) (j.pods.map (·.pod))) with
       | none => rw [ht] at hm; simp [walkActs] at hm
       | some tq => rw [ht] at hm; simp [walkActs] at hm
     · cases hcl : (condemnedOf (bOf j) (EOf j) (j.pods.map (·.pod))).reverse with
@@ -89,9 +89,9 @@ theorem mono_create_src (hk : MonoK h j) {o : Int} {rev : String}
     · cases hm
 
 theorem mono_facts (hk : MonoK h j) :
-    ActFacts j.view hk.1.norm.curRev.name hk.1.norm.updRev.name (bOf j) (EOf j) j.pods
-      (monoActsOf j.view hk.1.norm.curRev.name hk.1.norm.updRev.name (bOf j) (EOf j) j.pods) := by
-  have hs := hk.1
+    ActFacts j.view hk.1.1.norm.curRev.name hk.1.1.norm.updRev.name (bOf j) (EOf j) j.pods
+      (monoActsOf j.view hk.1.1.norm.curRev.name hk.1.1.norm.updRev.name (bOf j) (EOf j) j.pods) := by
+  have hs := hk.1.1
   have hn := hs.norm
   have hctx := hs.ctx
   refine ⟨?_, ?_, ?_, ?_, ?_⟩
@@ -166,8 +166,8 @@ theorem mono_facts (hk : MonoK h j) :
     · rw [hr] at h2; cases h2
     · exact ⟨a, b, c⟩
 
-theorem mono_pol (hk : MonoK h j) : Pol hk.1.norm :=
-  ⟨(recon_mono hk).1, by rw [(recon_mono hk).2]; exact mono_facts hk⟩
+theorem mono_pol (hk : MonoK h j) : Pol hk.1.1.norm :=
+  Pol.of_facts (recon_mono hk.1).1 (by rw [(recon_mono hk.1).2]; exact mono_facts hk)
 
 end
 
@@ -180,13 +180,13 @@ section
 variable {h : Hashing} {j : SyncIn}
 
 theorem mono_progress (hk : MonoK h j) (hpos : 0 < muPods j) :
-    Event (bOf j) (EOf j) j.pods hk.1.norm.recon.1.acts := by
-  have hs := hk.1
+    Event (bOf j) (EOf j) j.pods hk.1.1.norm.recon.1.acts := by
+  have hs := hk.1.1
   have hn := hs.norm
   have hctx := hs.ctx
   have hb0 := bOf_nonneg hn
   have hE := EOf_nonneg hn
-  rw [(recon_mono hk).2]
+  rw [(recon_mono hk.1).2]
   by_cases hfl : (monoRep j.view hn.curRev.name hn.updRev.name
       (repsOf j.view hn.curRev.name hn.updRev.name (bOf j) (EOf j) (j.pods.map (·.pod)))).2 = true
   · have hdone := monoRep_done hfl
@@ -240,7 +240,7 @@ theorem mono_progress (hk : MonoK h j) (hpos : 0 < muPods j) :
       unfold monoActsOf
       exact List.mem_append_left _ hu
     · by_cases hce : (condemnedOf (bOf j) (EOf j) (j.pods.map (·.pod))).reverse = []
-      · obtain ⟨c', hc', htg⟩ := target_exists hs hall hcm hr hroll hpt hrev
+      · obtain ⟨c', hc', htg⟩ := target_exists hs hk.2 hall hcm hr hroll hpt hrev
         refine Or.inr (Or.inl ⟨c', hc', c'.pod.ord, .update, ?_⟩)
         have hw : walkTarget j.view hn.updRev.name (repsOf j.view hn.curRev.name hn.updRev.name (bOf j) (EOf j) (j.pods.map (·.pod)))
             = some (c'.pod.ord, c'.pod) := by
@@ -271,26 +271,28 @@ theorem mono_progress (hk : MonoK h j) (hpos : 0 < muPods j) :
     exact List.mem_append_left _ hm
 
 theorem mono_next (hk : MonoK h j) : MonoK h (nextW h j) := by
-  have hs := hk.1
+  have hs := hk.1.1
   have hp := mono_pol hk
   have hview := nextW_view hs hp
   have hb : bOf (nextW h j) = bOf j := by unfold bOf; rw [hview]; rfl
   have hE : EOf (nextW h j) = EOf j := by unfold EOf; rw [hview]; rfl
-  refine ⟨nextW_ns hs hp, by rw [hview]; exact hk.2.1, ?_⟩
+  refine ⟨⟨nextW_ns hs hp, by rw [hview]; exact hk.1.2.1, ?_⟩, by rw [hview]; exact hk.2⟩
   intro x hx hfs
   obtain ⟨y, hy, hky⟩ := (nextW_pods hs hp).mem hx
   have e1 : y.pod.fs = x.pod.fs := key_transfer (·.pod.fs) (fun _ => rfl) hky
   have e2 : y.pod.ord = x.pod.ord := key_transfer (·.pod.ord) (fun _ => rfl) hky
   obtain ⟨c, hcm, hco, hcfs⟩ := (rawNext_pod hs hp hy).2.2.2.2.2.2.2.2.2 (by rw [e1]; exact hfs)
   rw [hb, hE, ← e2, ← hco]
-  exact hk.2.2 c hcm hcfs
+  exact hk.1.2.2 c hcm hcfs
 
 end
 
 /-- **the OrderedReady policy is a policy class** -/
 theorem mono_class (h : Hashing) : PolicyClass h (MonoK h) where
-  ns := fun _ hk => hk.1
+  ns := fun _ hk => hk.1.1
+  part := fun _ hk => hk.2
   pol := fun _ hk => mono_pol hk
+  facts := fun _ hk => by rw [(recon_mono hk.1).2]; exact mono_facts hk
   next := fun _ hk => mono_next hk
   progress := fun _ hk hpos => mono_progress hk hpos
 
